@@ -370,6 +370,12 @@ add("C09", "fixed", "parse-cpu-time:tag:<noname>", "the template lexer backtrack
 add("C04", "fixed", "reparse-error:symbol-segment", "a quoted path segment made of non-word characters above U+007F (a['\u20ac'], d['\u00d7']) was serialised in dot notation, which does not lex",
     [c04("{{ a['\u20ac'] }}"), c04("{% if d['\u00d7'] contains 'ab' %}y{% endif %}"), c04("{{ ['a\u2192b'] }}{{ a.\u00e9 }}")], "330d5eb")
 
+# ----------------------------------------------------------------------------- C03 open (reported by an independent sub-agent; same root cause as C09's expression-recursion finding)
+add("C03", "open", "lax-raises-parse:python-stack-exhausted-by-nested-expression",
+    "an expression nested deeper than the interpreter's stack (2000 bracketed paths, parentheses or nots) makes from_string raise LiquidError('unexpected liquid parsing error') in lax and warn mode too: "
+    "the lexer accepts the source, so 'in lax mode any source the lexer accepts parses without raising' does not hold for it",
+    [{"kind": "hand", "source": "{{ " + "a[" * 2000 + "a" + "]" * 2000 + " }}", "data": V.enc({})}, {"kind": "hand", "source": "{% if " + "(" * 1500 + "a" + ")" * 1500 + " %}x{% endif %}", "data": V.enc({})}])
+
 if __name__ == "__main__":
     # further entries are appended by tools/mkfindings.py from triaged replay files and kept in findings_extra.json
     extra_path = os.path.join(VERIF, "tools", "findings_extra.json")
